@@ -153,6 +153,7 @@ struct B<'a> {
     data_off: u64,
     cs: u32,
     sfn_counter: u32,
+    overflow: bool,
 }
 
 const SFN_CHARS: &[u8] = b"ABCDEFGHIJKLMNOPQRSTUVWXYZ0123456789!#$%&'()-@^_`{}~";
@@ -447,6 +448,9 @@ impl B<'_> {
                     }
                     let mut bytes = vec![0u8; chain.len() * self.cs as usize];
                     let fit = cslots.len().min(chain.len() * per);
+                    if fit < cslots.len() {
+                        self.overflow = true;
+                    }
                     for (k, s) in cslots.iter().take(fit).enumerate() {
                         bytes[k * 32..k * 32 + 32].copy_from_slice(s);
                     }
@@ -551,7 +555,7 @@ pub fn build(spec: &Spec, rng: &mut Rng) -> Result<(Image, Truth), String> {
             fat[c as usize] = bad_mark;
         }
     }
-    let mut b = B { s, rng, img, free, fat, data_off, cs, sfn_counter: 0 };
+    let mut b = B { s, rng, img, free, fat, data_off, cs, sfn_counter: 0, overflow: false };
     let label = if s.label_in_root { Some(*b"BUILT LABEL") } else { None };
     let mut root_chain = Vec::new();
     let root_nodes;
@@ -590,6 +594,9 @@ pub fn build(spec: &Spec, rng: &mut Rng) -> Result<(Image, Truth), String> {
         let root_off = (u64::from(s.reserved) + u64::from(s.nfats) * spf) * u64::from(s.bps);
         b.img.write(root_off, &bytes);
         root_nodes = nodes;
+    }
+    if b.overflow {
+        return Err("volume too small for the generated tree".into());
     }
     // ---- FAT tables
     let B { rng, mut img, free, mut fat, .. } = b;
